@@ -364,7 +364,16 @@ def _pelt_spec(mt, tab):
     if any(b - a < m for a, b in zip(cp, cp[1:])):
         return f"changepoints {mt['impl_changepoints']} leave a segment shorter than min_segment_length = {m}"
     own = sum(tab[a][b] for a, b in zip(cp, cp[1:])) + pen * len(mt["impl_changepoints"])
-    tol = 1e-9 * (abs(F[n]) + abs(own) + sum(abs(tab[0][e]) for e in range(m, n + 1)) / max(1, n)) + 1e-300
+    # the code adds and subtracts the penalty in floating point (opt_cost[0] = -penalty): its magnitude enters the rounding error of every score
+    tol = 1e-9 * (abs(F[n]) + abs(own) + sum(abs(tab[0][e]) for e in range(m, n + 1)) / max(1, n) + abs(pen) * (len(cp) + 1)) + 1e-300
+    if abs(mt["impl_scores"][-1] - own) > tol:
+        return f"final score {mt['impl_scores'][-1]!r} is not the penalised cost {own!r} of the reported changepoints {mt['impl_changepoints']}"
+    # optimality is claimed for costs that satisfy the split inequality: decide it ON THIS FLOAT TABLE (it fails e.g. for the Gaussian cost with the variance
+    # floor active or when cancellation noise dominates the costs -- theorem C06_gaussian_split_can_fail_at_the_floor); without it only the clauses above apply
+    split_ok = all(tab[a][k] + tab[k][b] <= tab[a][b] + tol for a in range(n + 1) for k in range(a + m, n + 1) for b in range(k + m, n + 1))
+    mt["split_inequality_on_table"] = split_ok
+    if not split_ok:
+        return None
     if own > F[n] + tol:
         return f"penalised cost of the reported changepoints {mt['impl_changepoints']} is {own!r}, the optimum over admissible segmentations is {F[n]!r}"
     if abs(mt["impl_scores"][-1] - F[n]) > tol:
